@@ -252,6 +252,7 @@ PLANS = {
                  R("h_invalid", "asan", "c19.params.random", 6000, 60000), R("h_invalid", "ndebug", "c19.params.random", 3000, 30000),
                  R("h_invalid", "asan", "c19.setters", 360, 3600), R("h_invalid", "ndebug", "c19.setters", 360, 3600),
                  R("h_invalid", "asan", "c19.nets", 960, 9600), R("h_invalid", "ndebug", "c19.nets", 960, 9600),
+                 R("h_invalid", "asan", "c19.params.nested", 1410, 9400),
                  R("h_invalid", "asan", "c19.params.midcall", 940, 9400), R("h_invalid", "ndebug", "c19.params.midcall", 940, 9400),
                  R("h_invalid", "asan", "c19.nets.structure", 20000, 200000), R("h_invalid", "ndebug", "c19.nets.structure", 20000, 200000)],
     },
